@@ -35,8 +35,14 @@ Theorem C12_eol : forall eol ls, eol = [LF] \/ eol = [CR; LF] -> Forall (line_ok
 Proof. exact raw_reads_join. Qed.
 Print Assumptions C12_eol.
 
-(** Final newline or none, on an example (the general statement is C12_raw_count: the last line's
-    terminator may be absent). *)
+(** Final newline or none: the last line may lack its terminator; the same texts are read back. *)
+Theorem C12_final_newline : forall eol init last, eol = [LF] \/ eol = [CR; LF] ->
+  Forall (line_ok eol) init -> last <> [] -> ~ In LF last -> utf8_valid last = true ->
+  texts (raw_reads (src_of_bytes (join_lines eol init ++ last))) = init ++ [last] /\
+  all_ok (raw_reads (src_of_bytes (join_lines eol init ++ last))).
+Proof. exact raw_reads_no_final_newline. Qed.
+Print Assumptions C12_final_newline.
+
 Example C12_eol_example :
   map (fun r => match r with ROk _ t => t | _ => [] end) (raw_reads (src_of_bytes [52; 13; 10; 13; 10; 53; 54; 13; 10]))
   = map (fun r => match r with ROk _ t => t | _ => [] end) (raw_reads (src_of_bytes [52; 10; 10; 53; 54])).
